@@ -416,14 +416,17 @@ func c11R3(c *eng.Ctx) {
 		c.Fail("R3", nil, "sync handler of the upstream-cluster queue", 0, "no function value passed to a syncqueue constructor found in "+shortName(pkgCtrl))
 		return
 	}
-	sl := c.Slicer()
+	// the handler's body may be spread over helpers (bootstrap / update branch extracted): scan its
+	// region and trace a helper's parameter into the arguments at its call sites. The handler itself
+	// is handed to the queue as a value, so its own parameter (the dequeued item) stays a leaf.
+	sl := c.Slicer().WithUp()
 	isListerGet := func(v ssa.Value) bool {
 		cc, idx := eng.CallResultOf(v)
 		return cc != nil && idx == 0 && eng.MethodNameIs(cc, "Get") && eng.TypeName(eng.Receiver(cc).Type()) == mod+"/pkg/client/listers/proxy/v1alpha1.UpstreamClusterLister"
 	}
 	for _, h := range handlers {
 		n := 0
-		for _, fn := range eng.WithClosures(h) {
+		for _, fn := range c.W.Region(h) {
 			for _, ci := range eng.Calls(fn) {
 				var obj ssa.Value
 				what := ""
@@ -527,7 +530,8 @@ func c11SetCall(ci ssa.CallInstruction, name string) bool {
 func c11SetOrigin(c *eng.Ctx, v ssa.Value) *ssa.Call {
 	var out *ssa.Call
 	n := 0
-	for _, leaf := range c.Slicer().Leaves(v, func(x ssa.Value) bool { cc, _ := eng.CallResultOf(x); return cc != nil }) {
+	// a set handed to an extracted helper as a parameter is the set created at the helper's call site
+	for _, leaf := range c.Slicer().WithUp().Leaves(v, func(x ssa.Value) bool { cc, _ := eng.CallResultOf(x); return cc != nil }) {
 		if eng.IsNilConst(leaf) {
 			continue
 		}
@@ -540,25 +544,134 @@ func c11SetOrigin(c *eng.Ctx, v ssa.Value) *ssa.Call {
 	return out
 }
 
-// c11RangeClosure returns the closure passed to set.Range(ci).
-func c11RangeClosure(ci ssa.CallInstruction) *ssa.Function {
+// c11LoopSite finds the loop an instruction of anchor's region runs in: the innermost loop
+// around the instruction itself or — outwards, while its function is an extracted helper with a
+// single call site — around the call through which it runs. It returns the instruction of that
+// loop's function standing for ins (ins itself or the helper call), the loop, and whether every
+// path through each helper crossed executes the inner instruction, i.e. whether "the site
+// runs" implies "the instruction runs". site is nil when no enclosing loop is found before
+// anchor (or a function with unknown callers) is left.
+func c11LoopSite(c *eng.Ctx, anchor *ssa.Function, ins ssa.Instruction) (site ssa.Instruction, loop *eng.Loop, always bool) {
+	own := map[*ssa.Function]bool{}
+	for _, f := range eng.WithClosures(anchor) {
+		own[f] = true
+	}
+	site, always = ins, true
+	for d := 0; d <= eng.LiftDepth; d++ {
+		if l := eng.InnermostLoop(site.Block()); l != nil {
+			return site, l, always
+		}
+		h := site.Parent()
+		if own[h] {
+			return nil, nil, false
+		}
+		sites := c.W.LiftSites(h)
+		if len(sites) != 1 {
+			return nil, nil, false
+		}
+		if _, plain := sites[0].(*ssa.Call); !plain {
+			return nil, nil, false // go / defer: does not run at the site
+		}
+		cur := site
+		if !c11EveryPathPasses(h, func(i ssa.Instruction) bool { return i == cur }) {
+			always = false
+		}
+		site = sites[0]
+	}
+	return nil, nil, false
+}
+
+// c11RangeCallback resolves the function set.Range(ci) runs for every element: a function
+// literal, a function, or the method behind a method value (x.Range(r.method)). It returns the
+// function, its element parameter (the last one) and — for a method value — the receiver the
+// method was bound to (nil otherwise).
+func c11RangeCallback(ci ssa.CallInstruction) (cb *ssa.Function, elem *ssa.Parameter, bound ssa.Value) {
 	a := eng.Args(ci)
 	if len(a) != 1 {
-		return nil
+		return nil, nil, nil
 	}
-	if mc, ok := a[0].(*ssa.MakeClosure); ok {
-		f, _ := mc.Fn.(*ssa.Function)
-		return f
+	v := a[0]
+	for {
+		if ct, ok := v.(*ssa.ChangeType); ok {
+			v = ct.X
+			continue
+		}
+		break
 	}
-	return nil
+	switch x := v.(type) {
+	case *ssa.MakeClosure:
+		cb, _ = x.Fn.(*ssa.Function)
+		if cb != nil && cb.Synthetic != "" && cb.Syntax() == nil {
+			// bound-method thunk: the method it calls, bound to Bindings[0]
+			var m *ssa.Function
+			for _, cc := range eng.Calls(cb) {
+				if f := eng.CalleeFn(cc); f != nil && f.Blocks != nil {
+					m = f
+				}
+			}
+			cb = m
+			if len(x.Bindings) == 1 {
+				bound = x.Bindings[0]
+			}
+		}
+	case *ssa.Function:
+		cb = x
+	}
+	if cb == nil || cb.Blocks == nil || cb.Signature.Params().Len() != 2 || len(cb.Params) < 2 {
+		return nil, nil, nil
+	}
+	return cb, cb.Params[len(cb.Params)-1], bound
+}
+
+// c11EveryPathPasses reports whether every path through fn, from the entry to any exit,
+// executes an instruction satisfying pred (directly or in a helper that always does).
+func c11EveryPathPasses(fn *ssa.Function, pred func(ssa.Instruction) bool) bool {
+	ok := true
+	eng.Instrs(fn, func(ins ssa.Instruction) {
+		if ins.Block() == fn.Recover || !eng.IsExit(ins) || pred(ins) {
+			return
+		}
+		if !eng.AlwaysBefore(fn, ins, pred) {
+			ok = false
+		}
+	})
+	return ok
 }
 
 // c11SetFilled decides that set `origin` receives, via Add, field `field` of every
 // element of a slice identified by isSlice: each Add on that set sits in a loop every
 // iteration of which passes it (or, when guarded, see guardOK), the loop is left only
-// through its header, and the added value is elem.<field> of that slice.
-func c11SetFilled(c *eng.Ctx, fns []*ssa.Function, origin *ssa.Call, elemType, field string, isSlice func(ssa.Value) bool, everyIteration bool) (bool, string) {
-	sl := c.Slicer()
+// through its header, and the added value is elem.<field> of that slice. anchor is the
+// function whose region fns is. A set built by a helper (`names := namesOf(list)`) is judged
+// in the helper's body with the helper's slice parameter standing for the argument of that call.
+func c11SetFilled(c *eng.Ctx, anchor *ssa.Function, fns []*ssa.Function, origin *ssa.Call, elemType, field string, isSlice func(ssa.Value) bool, everyIteration bool) (bool, string) {
+	if h := origin.Call.StaticCallee(); h != nil && eng.Analysable(h) && !origin.Call.IsInvoke() && h != anchor && eng.TypeName(origin.Type()) == c11TSet {
+		var inner *ssa.Call
+		nRet, same := 0, true
+		eng.Instrs(h, func(ins ssa.Instruction) {
+			if r, ok := ins.(*ssa.Return); ok && ins.Block() != h.Recover && len(r.Results) == 1 {
+				nRet++
+				o := c11SetOrigin(c, eng.ReturnResults(r)[0])
+				if o == nil || o.Parent() != h || (inner != nil && o != inner) {
+					same = false
+				}
+				inner = o
+			}
+		})
+		if nRet == 0 || !same || inner == nil {
+			return false, "the helper building the set does not return one set created by itself"
+		}
+		sliceIn := func(v ssa.Value) bool {
+			for i, prm := range h.Params {
+				if ssa.Value(prm) == v && i < len(origin.Call.Args) {
+					return isSlice(origin.Call.Args[i])
+				}
+			}
+			return false
+		}
+		return c11SetFilled(c, h, c.W.Region(h), inner, elemType, field, sliceIn, everyIteration)
+	}
+	sl := c.Slicer().WithUp()
 	n := 0
 	for _, fn := range fns {
 		for _, ci := range eng.Calls(fn) {
@@ -575,14 +688,14 @@ func c11SetFilled(c *eng.Ctx, fns []*ssa.Function, origin *ssa.Call, elemType, f
 			if !okVal {
 				return false, "an element added to the set is not " + field + " of an element of the expected list"
 			}
-			l := eng.InnermostLoop(ci.Block())
-			if l == nil {
+			site, l, always := c11LoopSite(c, anchor, ci)
+			if site == nil || l == nil {
 				return false, "the set is not filled in a loop over the list"
 			}
 			if !l.OnlyHeaderExits() {
 				return false, "the loop filling the set can be left before the end of the list"
 			}
-			if everyIteration && !l.EveryIterationPasses(func(i ssa.Instruction) bool { return i == ssa.Instruction(ci) }) {
+			if everyIteration && !(always && l.EveryIterationPasses(func(i ssa.Instruction) bool { return i == site })) {
 				return false, "an iteration over the list can skip adding its element to the set"
 			}
 		}
@@ -598,42 +711,48 @@ func c11R4(c *eng.Ctx) {
 
 	// ===== flow-control diff
 	if fn := c.MustMethod(pkgFCRoot, "upstreamLimiter", "syncLocalFlowControls"); fn != nil {
-		fns := eng.WithClosures(fn)
+		fns := c.W.Region(fn)
 		newObj := fn.Params[1]
+		// values are traced through the parameters of extracted helpers into their call sites
+		up := sl.WithUp()
 		isNewSchemas := func(v ssa.Value) bool {
-			return eng.FieldLoadOf(v, c11TFlowControl, "Schemas") && sl.DerivesFrom(v, func(x ssa.Value) bool { return x == ssa.Value(newObj) })
+			return eng.FieldLoadOf(v, c11TFlowControl, "Schemas") && up.DerivesFrom(v, func(x ssa.Value) bool { return x == ssa.Value(newObj) })
 		}
 		isOldSchemas := func(v ssa.Value) bool {
-			return eng.FieldLoadOf(v, c11TFlowControl, "Schemas") && !sl.DerivesFrom(v, func(x ssa.Value) bool { return x == ssa.Value(newObj) }) &&
-				sl.DerivesFrom(v, func(x ssa.Value) bool { return eng.IsResultOf(x, "(*"+c11TLimiter+").loadFlowControlSpec") })
-		}
-		elemOfNew := func(v ssa.Value) bool {
-			return sl.DerivesFrom(v, func(x ssa.Value) bool { ia, ok := x.(*ssa.IndexAddr); return ok && isNewSchemas(ia.X) })
-		}
-		nameOfNew := func(v ssa.Value) bool {
-			return elemOfNew(v) && sl.DerivesFrom(v, func(x ssa.Value) bool {
-				return eng.FieldAddrOf(x, c11TSchema, "Name") || eng.FieldLoadOf(x, c11TSchema, "Name")
-			})
+			return eng.FieldLoadOf(v, c11TFlowControl, "Schemas") && !up.DerivesFrom(v, func(x ssa.Value) bool { return x == ssa.Value(newObj) }) &&
+				up.DerivesFrom(v, func(x ssa.Value) bool { return eng.IsResultOf(x, "(*"+c11TLimiter+").loadFlowControlSpec") })
 		}
 		ownMap := func(v ssa.Value) bool { return eng.FieldLoadOf(v, c11TLimiter, "flowControls") }
 
-		// (a) every new schema is synced on every iteration
-		syncs := eng.CallsTo(fn, "("+pkgFCRemote+".LocalFlowControlWrapper).Sync")
+		// (a) every new schema is synced on every iteration (the loop body may have been moved into a
+		// helper: the Sync call is then judged at the helper's call site in the loop)
+		elemOfNewUp := func(v ssa.Value) bool {
+			return up.DerivesFrom(v, func(x ssa.Value) bool { ia, ok := x.(*ssa.IndexAddr); return ok && isNewSchemas(ia.X) })
+		}
+		nameOfNewUp := func(v ssa.Value) bool {
+			return elemOfNewUp(v) && up.DerivesFrom(v, func(x ssa.Value) bool {
+				return eng.FieldAddrOf(x, c11TSchema, "Name") || eng.FieldLoadOf(x, c11TSchema, "Name")
+			})
+		}
+		var syncs []ssa.CallInstruction
+		for _, g := range fns {
+			syncs = append(syncs, eng.CallsTo(g, "("+pkgFCRemote+".LocalFlowControlWrapper).Sync")...)
+		}
 		if len(syncs) == 0 {
 			c.Fail("R4", fn, "LocalFlowControl().Sync(newSchema) on every iteration#1", fn.Pos(), "the new schemas are never handed to their local limiters")
 		}
 		for k, ci := range syncs {
-			l := eng.InnermostLoop(ci.Block())
+			site, l, always := c11LoopSite(c, fn, ci)
 			a := eng.Args(ci)
 			ok, why := true, "every schema of the new object reaches its limiter's Sync"
 			switch {
 			case l == nil:
 				ok, why = false, "Sync is not called inside the loop over the new schemas"
-			case len(a) != 1 || !elemOfNew(a[0]):
+			case len(a) != 1 || !elemOfNewUp(a[0]):
 				ok, why = false, "the schema given to Sync is not the iterated element of the new object's Schemas"
 			case !l.OnlyHeaderExits():
 				ok, why = false, "the loop over the new schemas can be left early: later schemas keep their old limits"
-			case !l.EveryIterationPasses(func(i ssa.Instruction) bool { return i == ssa.Instruction(ci) }):
+			case !always || !l.EveryIterationPasses(func(i ssa.Instruction) bool { return i == site }):
 				ok, why = false, "an iteration over the new schemas can skip Sync (continue / conditional): that schema keeps its previous limit"
 			}
 			c.Check("R4", fn, fmt.Sprintf("LocalFlowControl().Sync(newSchema) on every iteration#%d", k+1), ci.Pos(), ok, why)
@@ -642,12 +761,12 @@ func c11R4(c *eng.Ctx) {
 			if lc, _ := eng.CallResultOf(eng.Receiver(ci)); lc != nil && eng.IsCall(lc, "("+pkgFCRemote+".FlowControlCache).LocalFlowControl") {
 				okRecv = true
 				nLeaves := 0
-				for _, leaf := range sl.Leaves(eng.Receiver(lc), func(x ssa.Value) bool { cc, _ := eng.CallResultOf(x); return cc != nil }) {
+				for _, leaf := range up.Leaves(eng.Receiver(lc), func(x ssa.Value) bool { cc, _ := eng.CallResultOf(x); return cc != nil }) {
 					nLeaves++
 					cc, idx := eng.CallResultOf(leaf)
 					switch {
-					case cc != nil && idx == 0 && eng.IsCall(cc, "(*"+c11TFCMap+").Load") && ownMap(eng.Receiver(cc)) && nameOfNew(eng.Args(cc)[0]):
-					case cc != nil && eng.IsCall(cc, pkgFCRemote+".NewFlowControlCache") && len(eng.Args(cc)) >= 2 && nameOfNew(eng.Args(cc)[1]):
+					case cc != nil && idx == 0 && eng.IsCall(cc, "(*"+c11TFCMap+").Load") && ownMap(eng.Receiver(cc)) && nameOfNewUp(eng.Args(cc)[0]):
+					case cc != nil && eng.IsCall(cc, pkgFCRemote+".NewFlowControlCache") && len(eng.Args(cc)) >= 2 && nameOfNewUp(eng.Args(cc)[1]):
 					default:
 						okRecv = false
 					}
@@ -660,17 +779,23 @@ func c11R4(c *eng.Ctx) {
 		// (b) names in old∖new are deleted
 		var del ssa.CallInstruction
 		var delCl *ssa.Function
+		var delElem *ssa.Parameter
+		var delBound ssa.Value
 		var rangeCall ssa.CallInstruction
-		for _, ci := range eng.Calls(fn) {
-			if !c11SetCall(ci, "Range") {
-				continue
-			}
-			cl := c11RangeClosure(ci)
-			if cl == nil {
-				continue
-			}
-			for _, d := range eng.CallsTo(cl, "(*"+c11TFCMap+").Delete") {
-				del, delCl, rangeCall = d, cl, ci
+		for _, g := range fns {
+			for _, ci := range eng.Calls(g) {
+				if !c11SetCall(ci, "Range") {
+					continue
+				}
+				cl, elem, bound := c11RangeCallback(ci)
+				if cl == nil {
+					continue
+				}
+				for _, h := range c.W.Region(cl) {
+					for _, d := range eng.CallsTo(h, "(*"+c11TFCMap+").Delete") {
+						del, delCl, delElem, delBound, rangeCall = d, cl, elem, bound, ci
+					}
+				}
 			}
 		}
 		if del == nil {
@@ -687,19 +812,27 @@ func c11R4(c *eng.Ctx) {
 				if oldSet == nil || newSet == nil || oldSet == newSet {
 					ok, why = false, "the operands of the set difference cannot be resolved to two distinct sets"
 				} else {
-					if o, w := c11SetFilled(c, fns, oldSet, c11TSchema, "Name", isOldSchemas, true); !o {
+					if o, w := c11SetFilled(c, fn, fns, oldSet, c11TSchema, "Name", isOldSchemas, true); !o {
 						ok, why = false, "left operand (previous names): "+w
 					}
-					if o, w := c11SetFilled(c, fns, newSet, c11TSchema, "Name", isNewSchemas, true); !o {
+					if o, w := c11SetFilled(c, fn, fns, newSet, c11TSchema, "Name", isNewSchemas, true); !o {
 						ok, why = false, "right operand (new names): "+w
 					}
 				}
 			}
 			c.Check("R4", fn, "stale set = previous names ∖ new names", rangeCall.Pos(), ok, why)
 			isDel := func(i ssa.Instruction) bool { return i == ssa.Instruction(del) }
-			okDel := ownMap(eng.Receiver(del)) && len(delCl.Params) == 2 &&
-				sl.DerivesFrom(eng.Args(del)[0], func(x ssa.Value) bool { return x == ssa.Value(delCl.Params[1]) }) &&
-				eng.ReachFromEntry(delCl, eng.PathQuery{Target: eng.IsExit, Avoid: isDel}) == nil && c11ReturnsTrue(delCl, nil)
+			// the map is the limiter's own: the callback reaches it through the receiver of
+			// syncLocalFlowControls (captured by the literal, or bound into the method value)
+			isRecv := func(x ssa.Value) bool { return x == ssa.Value(fn.Params[0]) }
+			ownRecv := up.DerivesFrom(eng.Receiver(del), isRecv)
+			if delBound != nil {
+				ownRecv = up.DerivesFrom(delBound, isRecv) &&
+					up.DerivesFrom(eng.Receiver(del), func(x ssa.Value) bool { return x == ssa.Value(delCl.Params[0]) })
+			}
+			okDel := ownMap(eng.Receiver(del)) && ownRecv &&
+				up.DerivesFrom(eng.Args(del)[0], func(x ssa.Value) bool { return x == ssa.Value(delElem) }) &&
+				c11EveryPathPasses(delCl, isDel) && c11ReturnsTrue(delCl, nil)
 			c.Check("R4", delCl, "every stale schema name is deleted", del.Pos(), okDel, "the Range callback must delete its element from the limiter's own map on every path and return true (returning false stops at the first stale name)")
 		}
 	}
@@ -710,22 +843,25 @@ func c11R4(c *eng.Ctx) {
 	if se == nil || au == nil {
 		return
 	}
-	fns := eng.WithClosures(se)
+	fns := c.W.Region(se)
 	servers := se.Params[1]
 	isServers := func(v ssa.Value) bool { return v == ssa.Value(servers) }
 	var call ssa.CallInstruction
 	var cl *ssa.Function
+	var clElem *ssa.Parameter
 	var rangeCall ssa.CallInstruction
-	for _, ci := range eng.Calls(se) {
-		if !c11SetCall(ci, "Range") {
-			continue
-		}
-		f := c11RangeClosure(ci)
-		if f == nil {
-			continue
-		}
-		for _, x := range eng.CallsToFn(f, au) {
-			call, cl, rangeCall = x, f, ci
+	for _, g := range fns {
+		for _, ci := range eng.Calls(g) {
+			if !c11SetCall(ci, "Range") {
+				continue
+			}
+			f, elem, _ := c11RangeCallback(ci)
+			if f == nil {
+				continue
+			}
+			for _, x := range eng.CallsToFn(f, au) {
+				call, cl, clElem, rangeCall = x, f, elem, ci
+			}
 		}
 	}
 	if call == nil {
@@ -735,7 +871,7 @@ func c11R4(c *eng.Ctx) {
 	wanted := c11SetOrigin(c, eng.Receiver(rangeCall))
 	okW, whyW := false, "the set ranged over cannot be resolved"
 	if wanted != nil {
-		okW, whyW = c11SetFilled(c, fns, wanted, c11TServer, "Endpoint", isServers, true)
+		okW, whyW = c11SetFilled(c, se, fns, wanted, c11TServer, "Endpoint", isServers, true)
 	}
 	if okW {
 		whyW = "every server of the object contributes its Endpoint to the wanted set"
@@ -744,7 +880,7 @@ func c11R4(c *eng.Ctx) {
 
 	a := eng.Args(call)
 	fromElem := func(v ssa.Value) bool {
-		return len(cl.Params) == 2 && sl.DerivesFrom(v, func(x ssa.Value) bool { return x == ssa.Value(cl.Params[1]) })
+		return sl.DerivesFrom(v, func(x ssa.Value) bool { return x == ssa.Value(clElem) })
 	}
 	isCall := func(i ssa.Instruction) bool { return i == ssa.Instruction(call) }
 	var disabledSet *ssa.Call
@@ -773,7 +909,7 @@ func c11R4(c *eng.Ctx) {
 
 	// disabled set = endpoints of the servers whose Disabled is set and true
 	if disabledSet != nil {
-		ok, why := c11SetFilled(c, fns, disabledSet, c11TServer, "Endpoint", isServers, false)
+		ok, why := c11SetFilled(c, se, fns, disabledSet, c11TServer, "Endpoint", isServers, false)
 		if ok {
 			for _, f := range fns {
 				for _, ci := range eng.Calls(f) {
@@ -951,50 +1087,61 @@ func c11Extra(c *eng.Ctx) {
 	c.Rule("R5", "the last-applied flow-control spec is recorded whenever the limiter table is touched: in syncLocalFlowControls the (deferred) store of currentFlowControlSpec is established before any Store/Delete/Sync of a limiter, on every path — otherwise a history A → ∅ → A is short-circuited by the unchanged test and the schemas stay removed", 2)
 	c.Rule("R6", "an object is applied only after its names were checked (see C10.R2p): a refused update must not have replaced the cluster's server-name list already", 2)
 	if sl := c.MustMethod(pkgFCRoot, "upstreamLimiter", "syncLocalFlowControls"); sl != nil {
-		// the recording: a Store on the currentFlowControlSpec field, directly or in a deferred closure
+		// the recording: a Store on the currentFlowControlSpec field, directly or in a deferred function
+		// (function literal, method or helper — with whatever the literal's body was spread over)
+		isRecordCall := func(ci ssa.CallInstruction) bool {
+			return eng.IsCall(ci, "(*sync/atomic.Value).Store") && eng.FieldAddrOf(eng.Receiver(ci), pkgFCRoot+".upstreamLimiter", "currentFlowControlSpec")
+		}
 		records := func(f *ssa.Function) bool {
-			found := false
-			eng.Instrs(f, func(ins ssa.Instruction) {
-				if ci, ok := ins.(ssa.CallInstruction); ok && eng.IsCall(ci, "(*sync/atomic.Value).Store") {
-					if eng.FieldAddrOf(eng.Receiver(ci), pkgFCRoot+".upstreamLimiter", "currentFlowControlSpec") {
-						found = true
+			for _, g := range c.W.Region(f) {
+				for _, ci := range eng.Calls(g) {
+					if isRecordCall(ci) {
+						return true
 					}
 				}
-			})
-			return found
+			}
+			return false
 		}
 		isRecord := func(ins ssa.Instruction) bool {
 			switch n := ins.(type) {
 			case *ssa.Defer:
-				if mc, ok := n.Call.Value.(*ssa.MakeClosure); ok {
-					if f, ok := mc.Fn.(*ssa.Function); ok {
-						return records(f)
-					}
+				if isRecordCall(n) {
+					return true
 				}
-				return eng.IsCall(n, "(*sync/atomic.Value).Store") && eng.FieldAddrOf(eng.Receiver(n), pkgFCRoot+".upstreamLimiter", "currentFlowControlSpec")
+				f := n.Call.StaticCallee()
+				return f != nil && f != sl && eng.Analysable(f) && records(f)
 			case *ssa.Call:
-				return eng.IsCall(n, "(*sync/atomic.Value).Store") && eng.FieldAddrOf(eng.Receiver(n), pkgFCRoot+".upstreamLimiter", "currentFlowControlSpec")
+				return isRecordCall(n)
 			}
 			return false
 		}
 		n := 0
+		own := map[*ssa.Function]bool{}
 		for _, fn := range eng.WithClosures(sl) {
+			own[fn] = true
+		}
+		// the limiter table may be touched in sl, in its closures, and in the helpers / method-value
+		// callbacks its body was spread over
+		for _, fn := range c.W.Region(sl) {
 			for _, ci := range eng.Calls(fn) {
 				mut := eng.IsCall(ci, "(*"+pkgFCRemote+".FlowControlMap).Store", "(*"+pkgFCRemote+".FlowControlMap).Delete", "("+pkgFCRemote+".LocalFlowControlWrapper).Sync")
 				if !mut {
 					continue
 				}
 				n++
-				// closures (the Range callback) run after the point where they are created in sl
-				site := ssa.Instruction(ci)
-				if fn != sl {
+				// in sl itself: the recording precedes the mutation. In an extracted helper or a callback handed
+				// to an iterator: the recording precedes every site under whose control it runs (lifted).
+				ok := eng.AlwaysBefore(fn, ci, isRecord)
+				if !ok && fn != sl && own[fn] {
+					// other closures run after the point where they are created in sl
+					var site ssa.Instruction
 					eng.Instrs(sl, func(ins ssa.Instruction) {
-						if mc, ok := ins.(*ssa.MakeClosure); ok && mc.Fn == ssa.Value(fn) {
+						if mc, isMC := ins.(*ssa.MakeClosure); isMC && mc.Fn == ssa.Value(fn) {
 							site = mc
 						}
 					})
+					ok = site != nil && eng.AlwaysBefore(sl, site, isRecord)
 				}
-				ok := site.Parent() == sl && eng.AlwaysBefore(sl, site, isRecord)
 				c.Check("R5", sl, fmt.Sprintf("limiter mutation#%d ⇒ applied spec recorded", n), ci.Pos(), ok,
 					"a path changes the limiter table (delete/create/resize) without the last-applied spec being recorded (e.g. an early return before the deferred store): the next identical-to-recorded spec is skipped as unchanged although the table no longer matches it")
 			}
